@@ -97,8 +97,8 @@ def oracle(ctx, deep=False):
         cl2 = F(ctx.rng.randint(1, 99), 100)
         try:
             fails = check_relations(cfg, a, b, cl2)
-        except ZeroDivisionError:
-            ctx.count("oracle:zero_division_skipped")
+        except (ZeroDivisionError, OverflowError, ValueError) as e:
+            ctx.count("oracle:raised_" + type(e).__name__ + "_skipped(C18)")
             continue
         if fails is None:
             ctx.count("oracle:degenerate_skipped")
@@ -113,6 +113,38 @@ def oracle(ctx, deep=False):
         if len(ctx.violations) > 200:
             break
     ctx.extra["oracle_cases"] = done
+    # boundary sweep: small unequal groups with very different means/variances (absolute and log-scale reference
+    # distributions differ), the statistic swept across the critical values of every option cell
+    import tea_tasting.aggr as A
+    sweep = 0
+    for ev in (False, True):
+        for ut in (False, True):
+            for alt in meanx.ALTS:
+                for (n1, m1, v1, n2, v2) in [(3, 13.0, 100.0, 30, 10.0), (25, 2.0, 0.5, 4, 40.0)]:
+                    for cl in (F(9, 10), F(95, 100)):
+                        for k in range(-24, 25, 2 if not deep else 1):
+                            se = (v1 / n1 + v2 / n2) ** 0.5
+                            m2 = m1 + k / 6 * se
+                            if m2 * m1 <= 0:
+                                continue
+                            cfg = {"numer": "x", "denom": None, "numer_covariate": None, "denom_covariate": None,
+                                   "alternative": alt, "confidence_level": cl, "equal_var": ev, "use_t": ut,
+                                   "alpha": F(1, 20), "ratio": F(1), "power": F(4, 5)}
+                            a = A.Aggregates(count_=n1, mean_={c: m1 for c in G.COLS}, var_={c: v1 for c in G.COLS},
+                                             cov_={(p, q): 0.0 for p in G.COLS for q in G.COLS if p < q})
+                            b = A.Aggregates(count_=n2, mean_={c: m2 for c in G.COLS}, var_={c: v2 for c in G.COLS},
+                                             cov_={(p, q): 0.0 for p in G.COLS for q in G.COLS if p < q})
+                            try:
+                                fails = check_relations(cfg, a, b, F(99, 100)) or []
+                            except (ZeroDivisionError, OverflowError, ValueError):
+                                continue
+                            sweep += 1
+                            for what, detail in fails:
+                                ctx.violations.append({"what": what, "detail": detail, "input": {
+                                    "cfg": meanx.cfg_json(cfg), "control": G.agg_json(a), "treatment": G.agg_json(b),
+                                    "cl2": "99/100"}})
+    ctx.evaluations += sweep
+    ctx.extra["boundary_sweep_cases"] = sweep
 
 
 def replay(ctx, rp):
